@@ -220,6 +220,12 @@ def main():
             "serves_properties": sorted(CHECKS),
             "kind_free_text": "TLA+ specifications under /verif/spec checked with TLC; TLC-generated behaviours replayed on the real code and "
                               "traces recorded from the real code validated by TLC, through in-package Go harnesses compiled with go test -overlay",
+        }, {
+            "name": "growth", "path": "/verif/bin/growth",
+            "serves_properties": [],
+            "kind_free_text": "specifications beyond the listed properties (bin/growth session|cron [quick|thorough]): Session.tla + SessionCheck.tla "
+                              "(TCPCLv4 session life cycle and keep-alive timing, bound to a real StageHandler), Cron.tla (bound to a real Cron); "
+                              "divergences are printed as DIVERGENCE growth=<name>, results under /verif/growth/",
         }],
         "checks": checks,
         "notes": "See DESIGN.md. Exit codes: 0 held, 1 VIOLATION (replay file under /verif/out), 2 infrastructure error (no verdict).",
